@@ -345,6 +345,10 @@ func child(a []string) {
 		os.Exit(2)
 	}
 	b := &Batch{ID: id, Tier: tier, Seed: seed, Index: bi, NBatches: nb, Only: only, R: newResult(), out: out}
+	// some batches run with a processor count that does not divide the shard count (work split per CPU must not lose a remainder)
+	if p := []int{0, 0, 3, 0, 6, 0, 5, 0}[bi%8]; p != 0 {
+		runtime.GOMAXPROCS(p)
+	}
 	e.Run(b)
 	b.flush()
 }
